@@ -214,7 +214,7 @@ def _branch_and_price(
     total_cg_iters = 0
 
     # Solve root node LP via column generation
-    x_vals, lp_obj, cg_iters = _solve_node_lp(
+    x_vals, lp_obj, cg_iters, all_proven = _solve_node_lp(
         columns, column_set, demands, {}, pricing_fn, is_cutting_stock, max_iter, eps
     )
     total_cg_iters += cg_iters
@@ -226,7 +226,8 @@ def _branch_and_price(
     frac_idx, frac_val = _most_fractional(x_vals, eps)
     if frac_idx is None:
         solution = _build_solution(x_vals, columns, eps)
-        return Result(solution, lp_obj, 0, total_cg_iters, Status.OPTIMAL)
+        status = Status.OPTIMAL if all_proven else Status.FEASIBLE
+        return Result(solution, lp_obj, 0, total_cg_iters, status)
 
     # Initialize B&B
     best_solution: dict[tuple[int, ...], int] | None = None
@@ -254,11 +255,13 @@ def _branch_and_price(
         col_bounds = {idx: (lo, hi) for idx, lo, hi in node.column_bounds}
 
         # Solve node LP with column generation
-        x_vals, lp_obj, cg_iters = _solve_node_lp(
+        x_vals, lp_obj, cg_iters, proven = _solve_node_lp(
             columns, column_set, demands, col_bounds, pricing_fn, is_cutting_stock, max_iter, eps
         )
         total_cg_iters += cg_iters
         nodes_explored += 1
+        # A node whose value is no valid bound may hide better plans: optimality is off
+        all_proven = all_proven and proven
 
         if report_progress(on_progress, progress_interval, nodes_explored, lp_obj, best_obj, total_cg_iters):
             break
@@ -280,7 +283,7 @@ def _branch_and_price(
 
                 # Check gap
                 gap = (best_obj - lp_obj) / max(abs(best_obj), 1e-10)
-                if gap < gap_tol:
+                if gap < gap_tol and all_proven:
                     return Result(best_solution, best_obj, nodes_explored, total_cg_iters, Status.OPTIMAL)
             continue
 
@@ -302,19 +305,25 @@ def _branch_and_price(
     if best_solution is None:
         return Result(None, float("inf"), nodes_explored, total_cg_iters, Status.INFEASIBLE)
 
-    status = Status.OPTIMAL if not tree else Status.FEASIBLE
+    status = Status.OPTIMAL if not tree and all_proven else Status.FEASIBLE
     return Result(best_solution, best_obj, nodes_explored, total_cg_iters, status)
 
 
 def _solve_node_lp(columns, column_set, demands, col_bounds, pricing_fn, is_cutting_stock, max_iter, eps):
-    """Solve LP relaxation at a B&B node via column generation."""
+    """Solve LP relaxation at a B&B node via column generation.
+
+    Returns (x_vals, lp_obj, cg_iters, proven). proven is False when lp_obj is not a valid
+    bound for the node: the restricted master is infeasible under branching bounds (no
+    Farkas pricing, so new columns might repair it), or pricing stalled on a column the
+    master already has (its branching bound is invisible to the pricer), or max_iter hit.
+    """
     cg_iters = 0
 
     for _ in range(max_iter):
         x_vals, duals, lp_obj = _solve_bounded_master_lp(columns, demands, col_bounds, eps)
 
         if lp_obj == float("inf"):
-            return x_vals, lp_obj, cg_iters
+            return x_vals, lp_obj, cg_iters, not col_bounds
 
         # Pricing
         new_col, pricing_value = pricing_fn(duals)
@@ -322,20 +331,20 @@ def _solve_node_lp(columns, column_set, demands, col_bounds, pricing_fn, is_cutt
         # Check reduced cost
         if is_cutting_stock:
             if pricing_value <= 1.0 + eps:
-                break
+                return x_vals, lp_obj, cg_iters, True
         else:
             if new_col is None or pricing_value >= -eps:
-                break
+                return x_vals, lp_obj, cg_iters, True
 
-        if new_col is not None and new_col not in column_set:
-            columns.append(new_col)
-            column_set.add(new_col)
+        if new_col is None or new_col in column_set:
+            return x_vals, lp_obj, cg_iters, False
 
+        columns.append(new_col)
+        column_set.add(new_col)
         cg_iters += 1
 
-    # Final solve
     x_vals, duals, lp_obj = _solve_bounded_master_lp(columns, demands, col_bounds, eps)
-    return x_vals, lp_obj, cg_iters
+    return x_vals, lp_obj, cg_iters, False
 
 
 def _solve_bounded_master_lp(columns, demands, col_bounds, eps):
